@@ -132,6 +132,83 @@ static void sec_par(void)
     }
 }
 
+/* ---- section 3: special argument forms and re-use sequences of every setter ---- */
+static void sec_special(void)
+{
+    int kc, r, c;
+    uint8_t out[64], blk[16];
+    lcg_fill(blk, 16, 77);
+    for (kc = 0; kc < 2; ++kc) {
+        for (r = 5; r <= 8; ++r) {
+            MantisKey_t m; int rv = 1;
+            memset(&m, 0, sizeof(m));
+            rv &= mantis_set_key(&m, KEYS[kc], 16, (unsigned)r, MANTIS_ENCRYPT); rv &= mantis_set_tweak(&m, KEYS[1] + 3, 8); mantis_ecb_crypt(out, blk, &m);
+            rv &= mantis_set_tweak(&m, NULL, 8); mantis_ecb_crypt(out + 8, blk, &m);                      /* NULL after a non-zero tweak */
+            mantis_swap_modes(&m); rv &= mantis_set_tweak(&m, KEYS[0] + 9, 8); mantis_ecb_crypt(out + 16, out, &m);
+            rv &= mantis_set_key(&m, KEYS[!kc], 16, (unsigned)r, MANTIS_DECRYPT); mantis_ecb_crypt(out + 24, blk, &m);    /* re-key: tweak back to zero */
+            mantis_ecb_crypt_tweaked(out + 32, blk, KEYS[0] + 30, &m);
+            rv += 2 * mantis_set_tweak(&m, KEYS[0], 7) + 4 * mantis_set_key(&m, KEYS[0], 16, 9, MANTIS_ENCRYPT);          /* rejected: unchanged */
+            mantis_ecb_crypt(out + 40, blk, &m);
+            out_digest("S3-mantis-special-forms", out, 48); out_digest("S3-mantis-special-returns", &rv, sizeof(rv));
+            ++g_cnt.evaluations;
+        }
+        {
+            Skinny128TweakedKey_t t; Skinny64TweakedKey_t u; int rv = 1, z;
+            for (z = 1; z <= 2; ++z) {
+                memset(&t, 0, sizeof(t)); memset(&u, 0, sizeof(u));
+                rv &= skinny128_set_tweaked_key(&t, KEYS[kc], 16u * (unsigned)z); rv &= skinny128_set_tweak(&t, KEYS[1] + 1, 16); skinny128_ecb_encrypt(out, blk, &t.ks);
+                rv &= skinny128_set_tweak(&t, NULL, 16); skinny128_ecb_encrypt(out + 16, blk, &t.ks);
+                rv &= skinny128_set_tweak(&t, KEYS[1] + 2, 3); rv &= skinny128_set_tweak(&t, NULL, 1); rv &= skinny128_set_tweak(&t, KEYS[0] + 5, 9); skinny128_ecb_decrypt(out + 32, blk, &t.ks);
+                rv += 2 * skinny128_set_tweak(&t, KEYS[0], 17) + 4 * skinny128_set_tweaked_key(&t, KEYS[0], 33);
+                skinny128_ecb_encrypt(out + 48, blk, &t.ks);
+                out_digest("S3-skinny128-tweak-special-forms", out, 64);
+                rv &= skinny64_set_tweaked_key(&u, KEYS[kc], 8u * (unsigned)z); rv &= skinny64_set_tweak(&u, KEYS[1] + 1, 8); skinny64_ecb_encrypt(out, blk, &u.ks);
+                rv &= skinny64_set_tweak(&u, NULL, 8); skinny64_ecb_encrypt(out + 8, blk, &u.ks);
+                rv &= skinny64_set_tweak(&u, KEYS[1] + 2, 3); rv &= skinny64_set_tweak(&u, NULL, 1); rv &= skinny64_set_tweak(&u, KEYS[0] + 5, 5); skinny64_ecb_decrypt(out + 16, blk, &u.ks);
+                rv += 2 * skinny64_set_tweak(&u, KEYS[0], 9) + 4 * skinny64_set_tweaked_key(&u, KEYS[0], 17);
+                skinny64_ecb_encrypt(out + 24, blk, &u.ks);
+                out_digest("S3-skinny64-tweak-special-forms", out, 32); out_digest("S3-skinny-tweak-special-returns", &rv, sizeof(rv));
+                ++g_cnt.evaluations;
+            }
+        }
+    }
+    /* CTR objects: NULL tweak / NULL counter after non-zero ones, rejected calls in the middle of a stream */
+    for (c = 0; c < 3; ++c) {
+        int bs = cipher_bs((Cipher)c);
+        if (BE > cipher_max_be((Cipher)c) || (c != CK_S128 && BE > BE_V128)) continue;
+        for (kc = 0; kc < 2; ++kc) {
+            CtrObj o; int rv = 1; size_t pos = 0;
+            arena_reset(); memset(&o, 0, sizeof(o));
+            if (!ctr_init((Cipher)c, BE, &o)) engine_error("ctr init");
+            if (c == CK_MANTIS) rv &= ctr_set_key((Cipher)c, &o, KEYS[kc], 16, 7); else rv &= ctr_set_tweaked_key((Cipher)c, &o, KEYS[kc], (unsigned)bs * 2);
+            rv &= ctr_set_tweak((Cipher)c, &o, KEYS[1] + 4, (unsigned)bs); rv &= ctr_set_counter((Cipher)c, &o, KEYS[1] + 20, (unsigned)bs);
+            rv &= ctr_encrypt((Cipher)c, &o, sbuf_out + pos, sbuf_in + pos, 37); pos += 37;
+            rv &= ctr_set_tweak((Cipher)c, &o, NULL, (unsigned)bs); rv &= ctr_set_counter((Cipher)c, &o, NULL, (unsigned)bs - 1);
+            rv &= ctr_encrypt((Cipher)c, &o, sbuf_out + pos, sbuf_in + pos, 150); pos += 150;
+            rv += 2 * ctr_set_counter((Cipher)c, &o, KEYS[0], (unsigned)bs + 1) + 4 * ctr_set_tweak((Cipher)c, &o, KEYS[0], c == CK_MANTIS ? 7u : 0u) + 8 * ctr_encrypt((Cipher)c, &o, NULL, sbuf_in, 1);
+            rv &= ctr_encrypt((Cipher)c, &o, sbuf_out + pos, sbuf_in + pos, 21); pos += 21;
+            ctr_cleanup((Cipher)c, &o);
+            rv += 16 * ctr_encrypt((Cipher)c, &o, sbuf_out + pos, sbuf_in + pos, 5);
+            out_digest(c == 0 ? "S3-skinny128-ctr-special-forms" : (c == 1 ? "S3-skinny64-ctr-special-forms" : "S3-mantis-ctr-special-forms"), sbuf_out, pos);
+            out_digest(c == 0 ? "S3-skinny128-ctr-special-returns" : (c == 1 ? "S3-skinny64-ctr-special-returns" : "S3-mantis-ctr-special-returns"), &rv, sizeof(rv));
+            ++g_cnt.evaluations;
+        }
+    }
+    /* Mantis parallel object: swap_modes, re-key */
+    if (BE <= cipher_max_be(CK_MANTIS) && BE <= BE_V128) {
+        ParObj o; int rv = 1;
+        arena_reset(); memset(&o, 0, sizeof(o));
+        if (!par_init(CK_MANTIS, BE, &o)) engine_error("par init");
+        rv &= par_set_key(CK_MANTIS, &o, KEYS[0], 16, 6, MANTIS_ENCRYPT); rv &= par_crypt(CK_MANTIS, &o, sbuf_out, sbuf_in, sbuf_in + 512, 8 * 11, 0);
+        par_swap_modes(&o); rv &= par_crypt(CK_MANTIS, &o, sbuf_out + 88, sbuf_out, sbuf_in + 512, 8 * 11, 0);
+        rv &= par_set_key(CK_MANTIS, &o, KEYS[1], 16, 8, MANTIS_DECRYPT); rv &= par_crypt(CK_MANTIS, &o, sbuf_out + 176, sbuf_in, sbuf_in + 600, 8 * 9, 0);
+        rv += 2 * par_set_key(CK_MANTIS, &o, KEYS[1], 17, 8, MANTIS_DECRYPT) + 4 * par_crypt(CK_MANTIS, &o, sbuf_out, sbuf_in, sbuf_in, 9, 0);
+        par_cleanup(CK_MANTIS, &o);
+        out_digest("S3-mantis-parallel-special-forms", sbuf_out, 248); out_digest("S3-mantis-parallel-special-returns", &rv, sizeof(rv));
+        ++g_cnt.evaluations;
+    }
+}
+
 /* ---- section 10: in-between key lengths ---- */
 static void sec_keylen(void)
 {
@@ -157,7 +234,7 @@ int main(int argc, char **argv)
     lcg_fill(KEYS[0], 48, 4242); for (i = 0; i < 48; ++i) KEYS[1][i] = (uint8_t)(0xFF - 5 * i);
     lcg_fill(sbuf_in, sizeof(sbuf_in), 2024);
     g_opts.nshards = 1; g_opts.shard = 0;
-    sec_blocks(); sec_ctr(); sec_par(); sec_keylen();
+    sec_blocks(); sec_special(); sec_ctr(); sec_par(); sec_keylen();
     sample_add("battery on back end %s: block families, CTR streams (5 key configs x 8 counters x 6 cut patterns incl. mid-stream re-key), parallel counts 0..25, key lengths 0..50", be_name(BE));
     return finish();
 }
